@@ -25,7 +25,7 @@ from harness.gen import c24lib as L
 
 DRIVERS = ["drv_c24"]
 RULE = ("one case = one generated Modelica model (3-7 equations over + - * / ^, unary sign, der, sin/cos/tan, time, "
-        "literals; plain, underscore, builtin-like and dotted names; parameter/constant/input/output/state/plain "
+        "literals incl. 7-17 significant digits, exponent forms, large and small magnitudes; plain, underscore, builtin-like and dotted names; parameter/constant/input/output/state/plain "
         "variables) pushed through parse, flatten, SymPy generate, compile, stubbed execution and exact evaluation at 3 "
         "points, plus the model correspondence; streams: main (arbitrary nesting unless the unparenthesised printer is "
         "detected), nested (operands that need parentheses), collide (names with equal mangling: open finding C24-F2), "
@@ -62,6 +62,8 @@ class G:
         self.rng, self.names, self.states, self.allow_time = rng, names, states, allow_time
 
     def num(self):
+        if self.rng.random() < 0.3:
+            return ["n", long_literal(self.rng)]
         return ["n", self.rng.choice(["1", "2", "3", "4", "5", "7", "10", "0.5", "1.5", "2.25", "0.125", "12"])]
 
     def var(self):
@@ -143,6 +145,30 @@ class G:
         if depth > 0 and self.rng.random() < 0.15:
             return ["c", self.rng.choice(L.FUNCS), self.p_sum(depth - 1)]
         return self.leaf()
+
+
+LONG_FIXED = ["1234567.5", "100000.5", "0.0174532925199", "3.141592653589793", "299792458", "6.02214076e23",
+              "1.380649e-23", "9.80665", "101325.25", "8.314462618", "0.000123456789", "1e-05", "12345678.125",
+              "2.718281828459045", "1.0000001", "999999.5", "1000000.5", "16777217", "4503599627370497.5"]
+
+
+def long_literal(rng):
+    """An UNSIGNED_NUMBER with 7-17 significant digits: plain decimals of large and small magnitude,
+    exponent forms, long integers — values a printer that rounds to a few digits cannot keep."""
+    r = rng.random()
+    if r < 0.3:
+        return rng.choice(LONG_FIXED)
+    n = rng.randint(7, 17)
+    digits = str(rng.randint(1, 9)) + "".join(rng.choice("0123456789") for _ in range(n - 2)) + str(rng.randint(1, 9))
+    if r < 0.5:
+        k = rng.randint(1, n - 1)
+        return digits[:k] + "." + digits[k:]
+    if r < 0.65:
+        return "0." + "0" * rng.randint(0, 6) + digits
+    if r < 0.9:
+        ex = rng.randint(-18, 18)
+        return digits[0] + "." + digits[1:] + rng.choice(["e", "E"]) + rng.choice(["", "+"] if ex >= 0 else [""]) + str(ex)
+    return digits[:rng.randint(7, min(n, 15))]
 
 
 def noparen_text(e):
@@ -568,6 +594,22 @@ def check_case(ctx, case, drv, printer):
             lists_ok = False
     elif len(ids) != declared and lists_ok:
         viol("number of created symbols differs from the number of flat variables", {"stage": "distinct"}, declared, len(ids))
+    # (3b) literals: every number written in an equation is the flat equation's number, exactly
+    glines = L.eq_lines(src)
+    if len(glines) == len(feqs):
+        for i, (fe, ln) in enumerate(zip(feqs, glines)):
+            want = L.term_lits(fe[0]) + L.term_lits(fe[1])
+            if want:
+                ctx.count("literals-compared", len(want))
+                if any(len(t.replace(".", "").replace("-", "").replace("+", "").lstrip("0")) >= 7 for t in want):
+                    ctx.count("eq-with-long-literal")
+            try:
+                got = L.pytree_lits(L.py_tree(ln))
+            except (SyntaxError, ValueError):
+                continue
+            if [L.frac_of_lit(t) for t in got] != [L.frac_of_lit(t) for t in want]:
+                viol("a number literal of an element of eqs denotes a different number than the flat equation's literal",
+                     {"stage": "literals", "eq": i, "line": ln}, want, got)
     # (4) equations, numerically
     eqs = list(obj.eqs) if isinstance(obj.eqs, list) else None
     checked = 0
